@@ -16,7 +16,8 @@ package run
 //	    materialised — then for every order "; all <i>:<opened>/<closed> ..." — the forest is built once and every
 //	    stream value is materialised in that order.
 //	    <elements>: the exact sequence; sorted when a C lies on the stream's path; "#<count>" when an L or S lies
-//	    below a C on the path (which elements pass is schedule dependent, how many is not).  Ids are read after the
+//	    below a C on the path (which elements pass is schedule dependent, how many is not), "?" when a Filter lies
+//	    below that (even the number depends on the schedule).  Ids are read after the
 //	    terminal operation returned (it waits for the goroutines of a concurrent map).
 //
 //	Q <sep|pack> n=<rows> w=<width> caps=<k:m,...> <seq|alt|joinI|joinL|joinF|joinsharedI> | <chain P> | <chain Q> | <chain post>
@@ -36,6 +37,7 @@ import (
 	"fmt"
 	"io"
 	"iter"
+	"runtime"
 	"sort"
 	"strconv"
 	"strings"
@@ -76,6 +78,8 @@ func execC17(caseText string) (obs string) {
 			done <- c17ExecD(caseText[2:])
 		case strings.HasPrefix(caseText, "Q "):
 			done <- c17ExecQ(caseText[2:])
+		case strings.HasPrefix(caseText, "M "):
+			done <- c17ExecM(caseText[2:])
 		default:
 			done <- "bad-case"
 		}
@@ -219,7 +223,7 @@ func c17Ints(l []int) string {
 	return strings.Join(parts, ",")
 }
 
-// how the elements of every stream are compared: 0 exact, 1 sorted, 2 count only (see the header)
+// how the elements of every stream are compared: 0 exact, 1 sorted, 2 count only, 3 not at all (see the header)
 func c17DataModes(ds []c17Deriv) []int {
 	modes := make([]int, len(ds)+1)
 	for j, d := range ds {
@@ -229,8 +233,10 @@ func c17DataModes(ds []c17Deriv) []int {
 			if m < 1 {
 				m = 1
 			}
-		case (d.kind == 'L' || d.kind == 'S') && m >= 1:
+		case (d.kind == 'L' || d.kind == 'S') && m == 1:
 			m = 2
+		case d.kind == 'F' && m >= 2:
+			m = 3
 		}
 		modes[j+1] = m
 	}
@@ -246,7 +252,31 @@ func c17FmtData(mode int, data []int) string {
 		sort.Ints(cp)
 		return c17Ints(cp)
 	}
-	return "#" + strconv.Itoa(len(data))
+	if mode == 2 {
+		return "#" + strconv.Itoa(len(data))
+	}
+	return "?"
+}
+
+// Materialises one stream value.  When a concurrent map lies on its path the call also waits until the helper
+// goroutines of that materialisation are gone: the mapper's channel fields are shared by all materialisations of the
+// stream value (and of every stream derived from it) and its workers touch them for a short while after the terminal
+// returned, so opening it again at once can crash the process ("send on closed channel") — an observation outside
+// C17, see notes/C17.md; C17 is about what was written at derivation time, not about that window.
+func c17Collect(ctx context.Context, s stream.Stream[int], async bool) ([]int, error) {
+	if !async {
+		return s.Collect(ctx)
+	}
+	base := runtime.NumGoroutine()
+	data, err := s.Collect(ctx)
+	deadline := time.Now().Add(5 * time.Second)
+	for runtime.NumGoroutine() > base && time.Now().Before(deadline) {
+		runtime.Gosched()
+		if runtime.NumGoroutine() > base {
+			time.Sleep(20 * time.Microsecond)
+		}
+	}
+	return data, err
 }
 
 func c17ExecD(text string) string {
@@ -270,7 +300,7 @@ func c17ExecD(text string) string {
 	for i := 0; i <= len(ds); i++ {
 		rec := &c17Rec{}
 		all := c17BuildForest(root, ds, rec)
-		data, err := all[i].Collect(ctx)
+		data, err := c17Collect(ctx, all[i], modes[i] > 0)
 		if err != nil {
 			fmt.Fprintf(&sb, " %d:err", i)
 			continue
@@ -291,7 +321,7 @@ func c17ExecD(text string) string {
 				return "bad-case"
 			}
 			rec.opened, rec.closed = nil, nil
-			if _, err := all[i].Collect(ctx); err != nil {
+			if _, err := c17Collect(ctx, all[i], modes[i] > 0); err != nil {
 				fmt.Fprintf(&sb, " %d:err", i)
 				continue
 			}
@@ -756,20 +786,35 @@ func c17Orders(c *Ctx, n int) string {
 }
 
 func c17EmitD(c *Ctx, root byte, ds []c17Deriv) {
-	// non-trivial: some stream has at least two children (fan-out) and at least two lifecycle-adding derivations
+	// non-trivial: some stream has at least two children (fan-out) and at least two lifecycle-adding derivations, or a
+	// concurrent-map child is derived from a parent whose list has 3+ elements (spare capacity under Go's growth)
 	kids := map[int]int{}
 	adding := 0
 	fan := false
+	concSpare := false
+	lens := []int{1}
+	if root == '0' {
+		lens[0] = 0
+	}
 	for _, d := range ds {
 		kids[d.parent]++
 		if kids[d.parent] >= 2 {
 			fan = true
 		}
-		if d.kind == 'W' || d.kind == 'K' {
+		l := lens[d.parent]
+		switch d.kind {
+		case 'W', 'K':
 			adding++
+			l++
+		case 'C':
+			if l >= 3 {
+				concSpare = true
+			}
+			l = 1 // the child's own list is the one-element wrapper
 		}
+		lens = append(lens, l)
 	}
-	c.Case(fan && adding >= 2, fmt.Sprintf("D r%c %s | %s", root, c17FmtDerivs(ds), c17Orders(c, len(ds)+1)))
+	c.Case((fan && adding >= 2) || concSpare, fmt.Sprintf("D r%c %s | %s", root, c17FmtDerivs(ds), c17Orders(c, len(ds)+1)))
 }
 
 func c17Substitute(c *Ctx, ds []c17Deriv) []c17Deriv {
@@ -1097,4 +1142,5 @@ func genC17Q(c *Ctx) {
 func genC17(c *Ctx) {
 	genC17D(c)
 	genC17Q(c)
+	genC17M(c)
 }
